@@ -1,10 +1,14 @@
 // Stream c18 — property C18: the parser is total; printed queries re-parse to the same query.
 //
 // (a) lexical layer, diffed against the Lean model (ops.txt / impl.txt):
-//     option.EscapeString / UnescapeString / EscapeIdentifier / UnescapeIdentifier / QuoteString /
-//     QuoteIdentifier and parser.Scanner on generated rune strings and on every program text of (b), (c);
+//
+//	option.EscapeString / UnescapeString / EscapeIdentifier / UnescapeIdentifier / QuoteString /
+//	QuoteIdentifier and parser.Scanner on generated rune strings and on every program text of (b), (c);
+//
 // (b) totality: parser.Parse under recover on corpus texts, token-level mutations of them and generated
-//     queries, in all four (prepared x ansi-quotes) modes;
+//
+//	queries, in all four (prepared x ansi-quotes) modes;
+//
 // (c) print/parse fixpoint and evaluation agreement for every text that parses to one query expression.
 // Laws are checked directly on the implementation's outputs and reported through o.Law.
 package main
